@@ -404,11 +404,18 @@ func rawReq(r resReq) resourcetypes.Resources {
 		"memory-request": r.MemReq,
 		"memory-limit":   r.MemLimit,
 	}
+	// clients write the options they do not want either not at all or as an explicit false;
+	// which of the two is a function of the request, so that a case replays
+	explicit := (int64(r.CPUReq*100)+r.MemReq/mib)%2 == 0
 	if r.Bind {
 		p["cpu-bind"] = true
+	} else if explicit {
+		p["cpu-bind"] = false
 	}
 	if r.Keep {
 		p["keep-cpu-bind"] = true
+	} else if explicit {
+		p["keep-cpu-bind"] = false
 	}
 	return resourcetypes.Resources{"cpumem": p}
 }
@@ -871,6 +878,13 @@ func (w *resWorld) checkAlloc(n *resModelNode, pre *nodeRecord, op resOp, wls []
 			useNUMA[wl.Res.NUMANode] += wl.Res.MemoryRequest
 			if wl.Res.NUMAMemory[wl.Res.NUMANode] != wl.Res.MemoryRequest {
 				w.viol("C04", "numa-memory-record", "alloc", fmt.Sprintf("%s: NUMA-placed instance records numa_memory %v for request %d", w.curOp, wl.Res.NUMAMemory, wl.Res.MemoryRequest))
+			}
+		}
+		// an instance takes memory of its own NUMA node only (and of none when it is not placed on one)
+		for _, k := range sortedKeys(wl.Res.NUMAMemory) {
+			if k != wl.Res.NUMANode && wl.Res.NUMAMemory[k] != 0 {
+				w.viol("C04", "numa-memory-record", "alloc-foreign-node", fmt.Sprintf("%s: instance placed on NUMA node %q records memory of NUMA node %s: %v", w.curOp, wl.Res.NUMANode, k, wl.Res.NUMAMemory))
+				useNUMA[k] += wl.Res.NUMAMemory[k]
 			}
 		}
 		// C05
